@@ -13,7 +13,7 @@ REPO = os.environ.get("VERIF_REPO", "/repo")
 KANI = {
     "C12": dict(crate="lib/melvm", file="kani/melvm_codec.rs", mod="verif_codec",
                 harnesses=["dec_enc_00_2f", "dec_enc_30_6f", "dec_enc_70_af", "dec_enc_b0_ef", "dec_enc_f0", "dec_enc_f1", "dec_enc_f2", "dec_enc_f3_ff",
-                           "enc_dec_noarg", "enc_dec_noarg2", "enc_dec_args", "enc_dec_args2", "enc_dec_pushi", "enc_dec_pushic", "enc_dec_pushb"],
+                           "enc_dec_noarg", "enc_dec_noarg2", "enc_dec_args", "enc_dec_args2", "enc_dec_push_edges", "enc_dec_pushi", "enc_dec_pushic", "enc_dec_pushb"],
                 text={"dec": "K1: for every byte string of <= 35 bytes with this first-byte range: decode either fails or yields an instruction whose encoding is exactly the consumed prefix; never panics",
                       "enc": "K2: encode(op) followed by two arbitrary bytes decodes back to op, consuming exactly the encoding"},
                 sources=["lib/melvm/src/opcode.rs", "lib/melvm/Cargo.toml", "Cargo.lock"], slow=["enc_dec_pushi", "enc_dec_pushic", "enc_dec_pushb"],
